@@ -1,7 +1,7 @@
 #!/bin/bash
 # runs every registered check (quick by default) and prints one line per property
 tier=${1:-quick}
-cd /verif
+cd "$(dirname "$0")/.."
 for p in $(python3 -c "
 import json
 print(' '.join(c['property_id'] for c in json.load(open('MANIFEST.json'))['checks']))"); do
